@@ -186,7 +186,7 @@ def run_harness(prop, tier, seed, outdir, extra=None, timeout=1800):
 def eval_shard(path):
     d = os.path.dirname(path)
     t0 = time.time()
-    rc, out = sh(["coqc", "-noglob", "-Q", os.path.join(COQ, "theories"), "Noir", os.path.basename(path)], 1500, cwd=d)
+    rc, out = sh(["bash", "-c", "ulimit -s unlimited 2>/dev/null; exec coqc -noglob -Q %s Noir %s" % (os.path.join(COQ, "theories"), os.path.basename(path))], 1500, cwd=d)
     for ext in (".vo", ".vok", ".vos", ".glob"):
         try:
             os.remove(path[:-2] + ext)
